@@ -98,10 +98,10 @@ class RecvTrace:
 class Node:
     """Harness-side replica of Filter.loop_once as a resumable state machine around a real MQ."""
     def __init__(self, net, name, sources=None, outputs=None, process=None, required=None, work_ms=0, srcs_balance=False, outs_balance=False,
-                 low_latency=None, nframes=None, metrics=None):
+                 low_latency=None, nframes=None, metrics=None, filt=False):
         self.net, self.name, self.behave, self.work = net, name, process, int(work_ms * 1_000_000)
         self.args = dict(sources=sources, outputs=outputs, required=required, srcs_balance=srcs_balance, outs_balance=outs_balance, low_latency=low_latency,
-                         metrics=metrics)      # metrics: None or the address of a DEDICATED metrics output (second ZMQSender of the MQ)
+                         metrics=metrics, filt=filt)      # metrics: None | True ('_metrics' topic on every output) | address of a DEDICATED metrics output (second ZMQSender); filt: '_filter' topic
         self.nframes = nframes; self.produced = 0
         self.log = []            # what process() was handed: list of {topic: (o, seq)}
         self.raw_log = []
@@ -116,7 +116,7 @@ class Node:
         a = self.args
         srcs = None if not a['sources'] else [F.Filter.parse_topics(s) for s in a['sources']]
         self.mq = M.MQ(srcs, a['outputs'], self.name, srcs_balance=a['srcs_balance'], srcs_low_lat=a['low_latency'], outs_balance=a['outs_balance'],
-                       outs_required=a['required'], outs_metrics=a['metrics'] or False, outs_filter=False, mq_log=False)
+                       outs_required=a['required'], outs_metrics=a['metrics'] or False, outs_filter=bool(a['filt']), mq_log=False)
         self.state = 'recv'; self.frames = None; self.wake = self.net.now; self.alive = True
         if self.net.trace and self.mq.receiver is not None:
             spec = []
@@ -184,7 +184,7 @@ def tag_sockets(net):
 
 
 def run(net, horizon_s=60, until=None, faults=(), max_steps=150_000):
-    """faults: list of (t_ns, kind, node, arg) with kind in kill|restart|stall.  max_steps: a run of the unchanged code needs a few thousand
+    """faults: list of (t_ns, kind, node, arg) with kind in kill|stop|restart|stall.  max_steps: a run of the unchanged code needs a few thousand
     steps; the cap ends a run in which the code under test floods (e.g. a send that is repeated for ever), the oracles then judge what happened"""
     faults = sorted(faults, key=lambda f: f[0]); fi = 0
     nodes = net.nodes
@@ -195,6 +195,10 @@ def run(net, horizon_s=60, until=None, faults=(), max_steps=150_000):
         while fi < len(faults) and faults[fi][0] <= net.now:
             _, kind, node, arg = faults[fi]; fi += 1
             if kind == 'kill': node.kill()
+            elif kind == 'stop':          # orderly shut-down: MQ.destroy() says CLOSE to every peer (they forget this node at once instead of after the time-out)
+                try: node.mq.destroy()
+                except Exception: pass
+                node.kill()
             elif kind == 'restart':
                 try: node.start(); tag_sockets(net)
                 except Exception as e:          # a filter that cannot come up again stays dead (the campaign's liveness oracle sees it)
